@@ -427,11 +427,23 @@ Definition update (p : pool) (m : option metadata) (err : option N) : pool :=
   end.
 
 (* ------------------------------------------------------------------ *)
+(* protocol/describegroups: Split makes one request per group ("they'll need to go to different
+   coordinators"); a describe-groups message is a GroupMessage routed by Group() = r.Groups[0]
+   (index panic on an empty list), whatever else it names *)
+Definition K_DescribeGroups : Z := 15.
+Definition split_describegroups (gs : list name) : list (list name) := map (fun g => [g]) gs.
+Definition describegroups_request (part : list name) : option request_kind :=
+  match part with
+  | g :: _ => Some (RGroup K_DescribeGroups g)
+  | [] => None
+  end.
+
 (* transport.go:339 roundTrip, as far as routing goes *)
 Inductive rt_request :=
 | QMetadata (names : option (list name)) (auto : bool)   (* *meta.Request *)
 | QListOffsets (ts : tps)                                (* Splitter *)
 | QListGroups                                            (* Splitter *)
+| QDescribeGroups (gs : list name)                       (* Splitter and GroupMessage *)
 | QOne (r : request_kind).                               (* everything else *)
 
 Inductive rt_result :=
@@ -465,6 +477,11 @@ Definition round_trip (p : pool) (q : rt_request) (fc : coord_fn) : rt_result :=
       RTSend (map (fun t => send_request c (ps_conns p) (RListOffsets t) fc) (split_listoffsets ts))
   | QListGroups =>
       RTSend (map (fun id => send_request c (ps_conns p) (RListGroups id) fc) (split_listgroups c))
+  | QDescribeGroups gs =>
+      RTSend (map (fun part => match describegroups_request part with
+                               | Some r => send_request c (ps_conns p) r fc
+                               | None => SendPanic
+                               end) (split_describegroups gs))
   | QOne r => RTSend [send_request c (ps_conns p) r fc]
   end.
 
@@ -590,3 +607,58 @@ Definition keyed_request (api : Z) (key : name) : request_kind :=
    the program left RecordSet.Version to the library (message sets, magic 1, before Produce v3;
    record batches, magic 2, from v3 on) *)
 Definition produce_record_version (api_version : Z) : Z := if api_version <? 3 then 1 else 2.
+
+(* ------------------------------------------------------------------ *)
+(* the reference count of a pool (transport.go: Transport.grabPool, connPool.ref / unref,
+   Transport.RoundTrip's `defer p.unref()`, CloseIdleConnections).  One pool's life:
+   grabPool returns it on three paths -- found under the read lock (ref), found by the re-check
+   under the write lock (ref), created (refc: 2 = one for the registry t.pools, one for the
+   caller; discover is started); every RoundTrip ends with unref; CloseIdleConnections unrefs
+   every registered pool and unregisters it.  The unref that reaches 0 cancels the pool's
+   context, which is what stops discover (DCancel / DExit above). *)
+Inductive grab_path := GFast | GRecheck | GCreate.
+Inductive rlabel :=
+| RGrab (path : grab_path)     (* a RoundTrip obtains the pool *)
+| RDone                        (* a RoundTrip returns: p.unref() *)
+| RCloseIdle.                  (* CloseIdleConnections *)
+Record rpool := {
+  rp_created : bool;
+  rp_registered : bool;        (* t.pools[k] == this pool *)
+  rp_refs : Z;                 (* p.refc *)
+  rp_users : Z;                (* RoundTrips in progress on this pool *)
+  rp_cancelled : bool          (* p.cancel() was called: discover ends *)
+}.
+Definition rpool_init : rpool :=
+  {| rp_created := false; rp_registered := false; rp_refs := 0; rp_users := 0; rp_cancelled := false |}.
+
+Definition rp_unref (s : rpool) : rpool :=
+  {| rp_created := rp_created s; rp_registered := rp_registered s; rp_refs := rp_refs s - 1;
+     rp_users := rp_users s; rp_cancelled := rp_cancelled s || (rp_refs s - 1 =? 0) |}.
+
+Definition rp_step (s : rpool) (l : rlabel) : option rpool :=
+  match l with
+  | RGrab GCreate =>
+      if rp_created s then None
+      else Some {| rp_created := true; rp_registered := true; rp_refs := 2; rp_users := 1; rp_cancelled := false |}
+  | RGrab _ =>      (* GFast, GRecheck: p.ref() *)
+      if rp_registered s
+      then Some {| rp_created := rp_created s; rp_registered := true; rp_refs := rp_refs s + 1;
+                   rp_users := rp_users s + 1; rp_cancelled := rp_cancelled s |}
+      else None
+  | RDone =>
+      if rp_users s >? 0
+      then Some (rp_unref {| rp_created := rp_created s; rp_registered := rp_registered s; rp_refs := rp_refs s;
+                             rp_users := rp_users s - 1; rp_cancelled := rp_cancelled s |})
+      else None
+  | RCloseIdle =>
+      if rp_registered s
+      then Some (rp_unref {| rp_created := rp_created s; rp_registered := false; rp_refs := rp_refs s;
+                             rp_users := rp_users s; rp_cancelled := rp_cancelled s |})
+      else None
+  end.
+
+Fixpoint rp_run (s : rpool) (ls : list rlabel) {struct ls} : option rpool :=
+  match ls with
+  | [] => Some s
+  | l :: ls' => match rp_step s l with Some s' => rp_run s' ls' | None => None end
+  end.
